@@ -87,7 +87,8 @@ sys_h!(sys_openat_flags, {
     assert!(ok && k.ncalls == 1 && k.log[0].kind == C_OPENAT && k.log[0].dirfd == d);
     // forbids following, close-on-exec, never a controlling terminal; nothing removed
     assert!(k.log[0].flags == (bits | libc::O_NOFOLLOW | ADDED) as u32 as u64);
-    assert!(k.log[0].mode == mode);
+    // rustix Mode::from_raw_mode strips the S_IFMT bits, nothing else
+    assert!(k.log[0].mode == mode & !libc::S_IFMT);
     kani::cover!(bits & libc::O_NOFOLLOW == 0, "caller did not ask for O_NOFOLLOW");
 });
 
@@ -132,7 +133,8 @@ sys_h!(sys_badfd, {
     install_close_model();
     reset(3);
     let raw: i32 = kani::any();
-    kani::assume(raw < 0 && raw != libc::AT_FDCWD);
+    // (-1 cannot be represented in a BorrowedFd at all: std reserves it as the niche)
+    kani::assume(raw < -1 && raw != libc::AT_FDCWD);
     let fd = borrow_fd(raw);
     let sel: u8 = kani::any();
     kani::assume(sel < 5);
@@ -145,6 +147,6 @@ sys_h!(sys_badfd, {
     };
     assert!(refused);
     assert!(kref().ncalls == 0, "an invalid descriptor number reached the kernel interface");
-    kani::cover!(raw == -1, "-1");
+    kani::cover!(raw == -libc::EBADF, "-EBADF");
     kani::cover!(sel == 4, "mkdirat");
 });
